@@ -1176,6 +1176,7 @@ pub fn run_uscenario(sc: &UScenario, replay: Option<Vec<Decision>>, trace: bool)
         probes,
         states,
         step_cap_hit,
+        switch_pairs: stats.switch_pairs.iter().copied().collect(),
     }
 }
 
